@@ -222,5 +222,20 @@ Definition ops_ok (ops : list op) : bool :=
   && forallb (fun o => forallb (fun a => guarded2 (map fst (gm_obody o)) o (code a)) ops) (seq 0 n_once)
   && forallb (fun a => match final_hl [] (code a) with [] => true | _ => false end) ops.   (* every row releases what it takes *)
 
+(* ---- lock order ----
+   The order in which the rows take mutexes while holding others (Conc/LockOrder.v): handshakeMutex, then c.in, then
+   c.out, then the Config's or the cache's mutex; an atomic operation (virtual mutex) is innermost.  Config.mutex and
+   the cache mutex are never held together, so they share a rank. *)
+Definition gm_rank (m : nat) : nat :=
+  match m with
+  | 6 => 0          (* M_hs *)
+  | 2 => 1          (* M_in *)
+  | 3 => 2          (* M_out *)
+  | 0 | 1 => 4      (* M_cfg, M_lru *)
+  | _ => 6          (* A_ac, A_st *)
+  end.
+Definition gm_rank_bound := 7.
+Definition all_ops : list op := claimed_ops ++ unclaimed_ops.
+
 (* a program: every goroutine performs any sequence of the given operations on the shared objects *)
 Definition program_of (threads : list (list op)) : list (list nitem) := map (flat_map code) threads.
